@@ -310,3 +310,63 @@ def c12(ctx):
     curve_family(ctx)
     finish(ctx, "EdPublicKeyToX25519 on all C10 decode inputs (ok iff decodable by witness; out = canonical (1+y)/(1-y) by inverse witness, 0 for y=1); EdPrivateKeyToX25519 = clamp(SHA-512(seed)[:32]); "
            "commutation X25519(convPriv, Basepoint) = convPub(pub) for seeded seeds; all validated by TLC in exact arithmetic", CURVE_ASSUME)
+
+
+# ---------------------------------------------------------------- numeric layers
+
+def num_class(ev):
+    op = ev.get("op")
+    if op == "field":
+        return "field|%s|%s%s" % (ev["layout"], ev["f"], "|aliased" if ev.get("aliased") else "")
+    if op == "scalar":
+        return "scalar|%s|%s|%s" % (ev["layout"], ev["f"], ev.get("w", ev.get("ls", "")))
+    if op == "group":
+        return "group|%s|%s" % (ev["f"], "pos=%s,b=%s" % (ev["pos"], ev["b"]) if ev["f"] == "choose" else ev.get("pt", ""))
+    return op
+
+
+NUM_CONFIGS_QUICK = ["default", "force32bit"]
+NUM_CONFIGS_THOROUGH = ["default", "noasm", "force32bit", "noasm_appengine", "force32bit_appengine", "386"]
+
+
+def num_family(ctx, configs):
+    mism = []
+    for cfgname in configs:
+        drv = build_driver(ctx, cfgname)
+        trace = os.path.join(ctx.work, "num_%s.ndjson" % cfgname)
+        out = run_driver(ctx, drv, "num", trace, config=cfgname)
+        ctx.log("driver[%s]:" % cfgname, out.strip())
+        mism += validate_trace(ctx, "TraceNum.tla", "TraceNum.cfg", trace, classify=num_class)
+    report_mismatches(ctx, mism)
+
+
+NUM_ASSUME = ASSUME_COMMON + ["sampling oracle: the exact residue identity is checked by TLC for every recorded operation, on inputs built from limb-boundary byte patterns and the operand classes "
+                              "the group-law code produces (R, A1 = Add(R,R), S1 = Sub(R,R), AB, SB); no claim is made for limb vectors outside those classes"]
+
+
+@check("C18")
+def c18(ctx):
+    model_check(ctx, "MCDecode.tla", "MCDecode.cfg")
+    num_family(ctx, NUM_CONFIGS_THOROUGH if ctx.thorough else NUM_CONFIGS_QUICK)
+    finish(ctx, "field operations of both limb layouts (5x51 in the default build, 10x25.5 with force32bit) driven on reduced elements from limb-boundary byte patterns (each limb 0 / 1 / mask-19 / mask-1 / mask / random, "
+           "encodings of 0,1,2,19,p-2,p-1,p,p+1,p+18,2^255-1) and on the unreduced classes the group law produces, incl. aliased in-place calls; TLC checks Val(out) = op(Val(in)) mod p, reduced limb widths, "
+           "Contract canonical (< p), Expand ignores bit 255, SwapConditional limb for limb, Recip by inverse identity, (p-5)/8 power by identity and projection", NUM_ASSUME)
+
+
+@check("C19")
+def c19(ctx):
+    model_check(ctx, "MCRecode.tla", "MCRecode.cfg")
+    num_family(ctx, NUM_CONFIGS_THOROUGH if ctx.thorough else NUM_CONFIGS_QUICK)
+    finish(ctx, "scalar layer of both layouts: Expand of 0..64-byte strings (kL+delta for 14 quotient sizes, 2^252/253/255/256/257/264/504/511/512 +-, qL and qL-1, random), ExpandRaw, Add/Mul on edge and random pairs of [0,L)^2, "
+           "Contract, reduce, signed radix-16 recoding (nibble patterns 7/8/9/f with neighbours 0/7/8/f at every third position, boundary values, clamped scalars), sliding windows 5 and 7 (patterns, boundaries, random), "
+           "the vartime helpers; TLC checks exact residues / digit sums / digit ranges in BigNat and digit-for-digit equality with Recode!SignedLoop; R1: recodings exact for all 16-bit scaled scalars", NUM_ASSUME)
+
+
+@check("C16")
+def c16(ctx):
+    model_check(ctx, "MCRecode.tla", "MCRecode.cfg")
+    num_family(ctx, NUM_CONFIGS_THOROUGH if ctx.thorough else ["default", "noasm", "force32bit"])
+    curve_family(ctx)   # audit-iso events: the projection [k]B + [t]T8 is re-derived bit by bit in TLA+
+    finish(ctx, "constant-time table selector on its complete domain (32 positions x 17 digits) on the assembly, reference and 32-bit backends: niels entry = (y-x, y+x, 2dxy) of [b 256^pos]B (row 0: 2xy) checked by TLC; "
+           "fixed-base multiplication on 0,1,2,8,16,L-1,L,L+1,2^255-1,2^254,2^252-1, nibble-carry patterns, reduced and clamped random scalars; double-base multiplication for P in {B,-B,identity,order 2,order 8, [k]B+T_t for all t} "
+           "x (s1,s2) in {0,1,2,L-1,2^252-1,2^252,random}^2: result coordinates k = s1 kP + s2, t = s1 tP computed by TLC", NUM_ASSUME)
